@@ -1225,7 +1225,9 @@ class SVG:
             ):
                 g.attrib[attr_name] = attr_value
 
-        if viewport != viewbox:
+        # a viewBox is mapped onto the viewport also when the two coincide (identity then);
+        # only without one is the content's user space simply shifted to the viewport
+        if "viewBox" in svg.attrib:
             preserve_aspect_ratio = svg.attrib.get("preserveAspectRatio", "xMidYMid")
             transform = Affine2D.rect_to_rect(viewbox, viewport, preserve_aspect_ratio)
         else:
